@@ -102,7 +102,10 @@ Create(m, c, seed, tex, o0, f0) ==
     /\ err' = "None" /\ UNCHANGED <<nUpd, Fm, disk>>
 
 \* ---------------------------------------------------------------- updates
-EffRegime(m, cb) == IF cb = NoCb THEN cfg[m].regime ELSE cb
+\* a callback code >= 100 is a callback that returns the mineral's current regime during the first
+\* half of the interval and regime (cb - 100) afterwards: the update fails part-way through
+CbRegime(cb) == IF cb >= 100 THEN cb - 100 ELSE cb
+EffRegime(m, cb) == IF cb = NoCb THEN cfg[m].regime ELSE CbRegime(cb)
 WithRegime(m, cb) == [cfg EXCEPT ![m] = [@ EXCEPT !.regime = EffRegime(m, cb)]]
 
 \* the new contents are parameters so that a trace specification can bind them to what
@@ -114,6 +117,7 @@ ContentOK(m, r, fl, par, newO, newF) ==
 
 UpdateOk(m, fl, par, cb, newO, newF) ==
     /\ Tick /\ Log([a |-> "UpdateOk", m |-> m, fl |-> fl, par |-> par, cb |-> cb]) /\ cfg[m] # NULL /\ nUpd[m] < MaxUpd
+    /\ cb < 100                      \* late-switching callbacks are modelled for rejections only
     /\ Dispatch(cfg[m], EffRegime(m, cb), par) \in OkClasses
     /\ ContentOK(m, EffRegime(m, cb), fl, par, newO, newF)
     /\ hist' = [hist EXCEPT ![m] = Append(@, [o |-> newO, f |-> newF])]
@@ -125,6 +129,8 @@ UpdateOk(m, fl, par, cb, newO, newF) ==
 UpdateRejected(m, fl, par, cb) ==
     /\ Tick /\ Log([a |-> "UpdateRejected", m |-> m, fl |-> fl, par |-> par, cb |-> cb]) /\ cfg[m] # NULL
     /\ Dispatch(cfg[m], EffRegime(m, cb), par) \in RejClasses
+    \* a late-switching callback presupposes that the first half of the interval is integrable
+    /\ cb >= 100 => Dispatch(cfg[m], cfg[m].regime, par) \in {"null", "diffusion", "texture"}
     /\ cfg' = WithRegime(m, cb)              \* named deviation: the callback's regime sticks
     /\ err' = "ValueError"
     /\ UNCHANGED <<hist, nUpd, Fm, disk>>
